@@ -4,19 +4,22 @@ import numpy as np
 from vlib import caseio, gen
 
 ID = "C04"
-COQ_TARGETS = ["C04_Extract.vo", "C04_Proofs.vo"]
+COQ_TARGETS = ["C04_Extract.vo", "C04_Proofs.vo", "C04_Transport.vo"]
 COQ_PREFIXES = ["C04", "C03", "C01", "C02"]
 EXTRACTED = "C04_model"
 DRIVER = "drv_C04.ml"
 HARNESS = "h_C04.cpp"
 VARIANTS = {"quick": ["O1"], "thorough": ["O1", "asan"]}
 AXIOMS_ALLOWED = []
-REQUIRED_THEOREMS = ["C04_predict_additive", "C04_predict_augmented", "C04_correct_additive", "C04_correct_augmented",
-                     "C04_likelihood_additive", "C04_likelihood_augmented"]
+REQUIRED_THEOREMS = ["C04_predict_additive", "C04_predict_augmented", "C04_predict_additive_exogenous", "C04_kf_predict_is_C02",
+                     "C04_kf_predict_mean_is_C02", "C04_correct_additive", "C04_correct_augmented",
+                     "C04_likelihood_additive", "C04_likelihood_augmented", "C04_innovation_cov_invertible",
+                     "C04_skip_is_identity", "C04_no_measurement_is_identity", "C04_unusable_measurement_is_identity",
+                     "C04_transport_kf_predict"]
 RULE = ("cases drawn from one seeded stream: kinds predict / correct, additive and generic (noise-input, augmented) constructors, "
-        "n in 1..5, m in 1..3 (also m > n), noise inputs q in 1..3, components 1..3, P_i PSD (prediction: incl. singular; correction: SPD with chosen "
+        "n in 1..5, m in 1..3 (also m > n), noise inputs q in 1..3, components 1..3, P_i PSD incl. rank-deficient and zero (prediction and correction; SPD ones with chosen "
         "condition number <= 1e4), F random / singular / identity, H random / rank-deficient / zero row / selector / zero, B, D random incl. rank-deficient, "
-        "R SPD, alpha in [0.1,2], beta in [0,3], kappa in [0,3]; skip flags, missing measurement, failing prediction, each also after an earlier successful correction by the same object; "
+        "R SPD, alpha in [0.1,2], beta in [0,3], kappa in [0,3]; constant exogenous input on the additive state model, output object of another shape, measurement descriptions that declare noise components, skip flags, missing measurement, failing prediction, each also after an earlier successful correction by the same object; "
         "non-trivial = components >= 2 or generic or rank-deficient H/F or singular P or an early-return path; "
         "distinct by (kind, generic, n, m, q, comps, matrix kind, path)")
 TRUSTED_BASE = ["Coq 8.16.1 kernel (coqc); no axioms (Print Assumptions: closed under the global context)",
@@ -29,7 +32,7 @@ TRUSTED_BASE = ["Coq 8.16.1 kernel (coqc); no axioms (Print Assumptions: closed 
 ASSUMPTIONS = ["square-root oracle: P symmetric PSD => A A^T = P (Eigen jacobiSvd; checked on the implementation's sigma points by C03, on the model side here)",
                "sqrt oracle: 0 <= c => sqrt c * sqrt c = c",
                "Eigen inverse()/determinant() behave as matrix inverse/determinant up to rounding",
-               "linear measurement description: total_size = dim_covariance of the output (quaternion measurements are outside C04)"]
+               "linear measurement description (m linear, no circular components; declared noise components are allowed and irrelevant: the cross-covariance is sliced by predicted_meas_.dim_covariance); quaternion states/measurements are outside C04"]
 
 COUNTS = {"quick": 300, "thorough": 8000}
 
@@ -89,13 +92,24 @@ def gen_case(rng, k):
         scale = max(1.0, np.linalg.norm(F, 2) ** 2 * max(np.linalg.norm(P, 2) for P in covs) + np.linalg.norm(Q, 2) * max(1.0, np.linalg.norm(B, 2) ** 2 if B.size else 1.0))
         meta.update({"mkind": fk + "/" + bk, "path": path, "singular": sing, "wmag": "%.4g" % wmag(alpha, beta, kappa, n + q), "cond": "%.3g" % scale})
         c.meta = meta
-        c.int("skip_pred", int(path == "skip_pred")).int("skip_state", int(path == "skip_state"))
+        exo = (not generic) and rng.random() < 0.4       # constant exogenous input on both state models
+        out_shape = rng.choice([0, 0, 1, 2])            # output object of another shape (it is assigned as a whole)
+        meta["exo"] = int(exo); meta["out_shape"] = out_shape
+        c.int("skip_pred", int(path == "skip_pred")).int("skip_state", int(path == "skip_state")).int("out_shape", out_shape)
+        if exo:
+            c.mat_shape("exo_c", n, 1, gen.matrix(rng, n, 1, 3.0))
         c.mat_shape("F", n, n, F).mat_shape("B", n, q, B).mat_shape("A", n, n + q, A).mat_shape("Q", Q.shape[0], Q.shape[0], Q)
         c.mat_shape("means", n, comps, means).mat_shape("covs", n, n * comps, np.hstack(covs)).mat_shape("weights", comps, 1, w)
         return c
-    covs, cond = [], 1.0
+    covs, cond, sing = [], 1.0, 0
     for i in range(comps):
-        P, cd = gen.spd(rng, n, 10 ** rng.uniform(0, 4)); covs.append(P); cond = max(cond, cd)
+        pk = rng.choice(["spd", "spd", "spd", "rankdef", "zero"])
+        if pk == "spd":
+            P, cd = gen.spd(rng, n, 10 ** rng.uniform(0, 4)); cond = max(cond, cd)
+        else:
+            rank = max(0, n - 1) if pk == "rankdef" else 0      # S = H P H^T + R stays SPD through R
+            P = gen.psd(rng, n, rank); sing = max(sing, n - rank)
+        covs.append(P)
     H, hk = gen.measurement_matrix(rng, m, n)
     path = rng.choice(["step"] * 10 + ["skip", "no_measurement", "fail"])
     if generic:
@@ -111,9 +125,11 @@ def gen_case(rng, k):
     y = gen.matrix(rng, m, 1, 5.0)
     old_comps = comps + rng.choice([0, 0, 1])
     old_w = np.array([0.125] * old_comps)
-    meta.update({"m": m, "mkind": hk + "/" + dk, "path": path, "rankH": int(np.linalg.matrix_rank(H)),
+    mnoise = rng.choice([0, 0, 1, 2])      # noise components declared by the measurement description
+    meta.update({"m": m, "mkind": hk + "/" + dk, "path": path, "rankH": int(np.linalg.matrix_rank(H)), "singular": sing, "mnoise": mnoise,
                  "wmag": "%.4g" % wmag(alpha, beta, kappa, n + q), "cond": "%.3g" % max(cond, condS, np.linalg.cond(Reff))})
     c.meta = meta
+    c.int("mnoise", mnoise)
     c.int("m", m).int("skip", int(path == "skip")).int("have_y", int(path != "no_measurement")).int("fail", int(path == "fail")).int("online", rng.randint(0, 1))
     c.mat_shape("H", m, n, H).mat_shape("D", m, q, D).mat_shape("A", m, n + q, A).mat_shape("R", R.shape[0], R.shape[0], R).mat_shape("y", m, 1, y)
     c.mat_shape("means", n, comps, means).mat_shape("covs", n, n * comps, np.hstack(covs)).mat_shape("weights", comps, 1, w)
@@ -132,7 +148,7 @@ def generate(rng, tier):
 def nontrivial(c):
     m = c.meta
     if int(m["comps"]) >= 2 or int(m["generic"]) or m["path"] != "step" or "rankdef" in m["mkind"] or "zero" in m["mkind"] or "singular" in m["mkind"] or int(m.get("singular", 0)):
-        return (m["kind"], m["generic"], m["n"], m.get("m", "-"), m["q"], m["comps"], m["mkind"], m["path"], m.get("warm", "-"))
+        return (m["kind"], m["generic"], m["n"], m.get("m", "-"), m["q"], m["comps"], m["mkind"], m["path"], m.get("warm", "-"), m.get("mnoise", "-"), m.get("exo", "-"), m.get("singular", "-"))
     return None
 
 
@@ -208,6 +224,8 @@ def oracle(c, impl, model):
                 v.append((sig + ":ukf-differs-from-kf:%s:comp%s" % (f.rstrip("0123456789"), "0" if i == 0 else "k"),
                           "component %d: max|ukf-kf| = %.3g (tol %.3g)" % (i, caseio.maxdiff(a, b), t)))
     if c.kind == "predict":
+        if impl.get("dim") != n:
+            v.append((sig + ":output-shape", "predicted mixture has dimension %s, expected %d" % (impl.get("dim"), n)))
         if not caseio.close(impl.get("weights").reshape(-1), np.full(comps, 1.0 / comps), 1e-15, 0):
             v.append((sig + ":output-weights", "the predicted mixture does not carry the uniform weights of a fresh mixture"))
     else:
@@ -236,7 +254,7 @@ def oracle(c, impl, model):
 
 def histogram(cases):
     h = {}
-    for key in ("kind", "generic", "n", "m", "q", "comps", "path", "mkind", "warm"):
+    for key in ("kind", "generic", "n", "m", "q", "comps", "path", "mkind", "warm", "mnoise", "exo", "out_shape", "singular"):
         hk = {}
         for c in cases:
             if key in c.meta:
